@@ -1064,6 +1064,22 @@ def replay(ctx, res, rp):
         print("replay: findings %s ; reference execution %s" % (got[0][0], oracle[0] if oracle else "?"))
         print("replay: %s" % ("still fails" if bad else "no longer fails"))
         return 1 if bad else 0
+    if kind == "groups":
+        d = os.path.join(ctx.tmp, "r")
+        os.makedirs(d, exist_ok=True)
+        lib = os.path.join(d, "r.cfg")
+        open(lib, "w").write(library_text(rp["blocks"]))
+        protos = "#include <stdlib.h>\n#include <stdio.h>\n#include <string.h>\n"
+        for b in rp["blocks"]:
+            protos += "".join("char *%s(void);\n" % n for n in b["allocs"])
+            protos += "".join("void %s(char *);\n" % n for e in b["deallocs"] for n in e if n.startswith("ud"))
+        path = os.path.join(d, "r.c")
+        open(path, "w").write(protos + typed_function([tuple(o) for o in rp["ops"]], "f", None))
+        fs = cppcheck_xml(ctx, path, ["--library=" + lib]) or []
+        bad = [f for f in fs if f["id"] == "mismatchAllocDealloc" and f["severity"] == "error"]
+        print("replay: %s" % [(f["id"], f["severity"], f["symbol"]) for f in fs])
+        print("replay: %s" % ("still fails" if bad else "no longer fails"))
+        return 1 if bad else 0
     if kind == "ubfree":
         d = os.path.join(ctx.tmp, "r")
         os.makedirs(d, exist_ok=True)
